@@ -1388,4 +1388,670 @@ theorem last_spec {t : Tree} {d fuel : Nat} (hb : BranchesNonEmpty t) (hd : dept
     rw [hk]
     exact PrevRes.found _ x _ hv (by rw [← hu, hux]) hu hin
 
+/-! ### search-tree bounds -/
+
+theorem geLo_trans {lo : Option Bytes} {s x : Bytes} (h1 : geLo lo s) (h2 : Bytes.lt x s = false) : geLo lo x := by
+  cases lo with
+  | none => trivial
+  | some l => exact ble_trans (a := l) (b := s) (c := x) h1 h2
+
+theorem ltHi_trans {hi : Option Bytes} {s x : Bytes} (h1 : ltHi hi s) (h2 : Bytes.lt x s = true) : ltHi hi x := by
+  cases hi with
+  | none => trivial
+  | some h => exact blt_trans h2 h1
+
+theorem kidsST_single {b : Bool} {lo hi : Option Bytes} {s : Bytes} {c : Tree} :
+    KidsST b lo hi [(s, c)] ↔
+      (b = true ∨ geLo lo s) ∧ ltHi hi s ∧ ST (if b then lo else some s) hi c := by
+  rw [KidsST]
+
+theorem kidsST_cons2 {b : Bool} {lo hi : Option Bytes} {s s' : Bytes} {c c' : Tree} {r' : List (Bytes × Tree)} :
+    KidsST b lo hi ((s, c) :: (s', c') :: r') ↔
+      (b = true ∨ geLo lo s) ∧ ltHi hi s ∧ Bytes.lt s s' = true ∧
+        ST (if b then lo else some s) (some s') c ∧ KidsST false lo hi ((s', c') :: r') := by
+  rw [KidsST]
+
+/-- every key of a search-tree-ordered subtree lies within its bounds -/
+theorem ST_bounds : ∀ (t : Tree) (lo hi : Option Bytes), ST lo hi t →
+    ∀ x ∈ flatten t, geLo lo x.key ∧ ltHi hi x.key := by
+  refine Tree.induct
+    (Q := fun kids => ∀ (b : Bool) (lo hi : Option Bytes), KidsST b lo hi kids →
+      ∀ x ∈ flattenKids kids, geLo lo x.key ∧ ltHi hi x.key) ?_ ?_ ?_ ?_
+  · intro items lo hi h x hx
+    simp only [ST] at h
+    exact h.2 x hx
+  · intro kids ih lo hi h x hx
+    simp only [ST] at h
+    exact ih true lo hi h x hx
+  · intro b lo hi _ x hx
+    simp [flattenKids] at hx
+  · intro s c r ihc ihr b lo hi h x hx
+    simp only [flattenKids, List.mem_append] at hx
+    cases r with
+    | nil =>
+      rw [kidsST_single] at h
+      obtain ⟨hlo, hhi, hst⟩ := h
+      rcases hx with hx | hx
+      · have := ihc _ _ hst x hx
+        refine ⟨?_, this.2⟩
+        cases b with
+        | true => simpa using this.1
+        | false =>
+          have h1 : geLo lo s := by simpa using hlo
+          have h2 : Bytes.lt x.key s = false := by simpa [geLo] using this.1
+          exact geLo_trans h1 h2
+      · simp [flattenKids] at hx
+    | cons q r' =>
+      obtain ⟨s', c'⟩ := q
+      rw [kidsST_cons2] at h
+      obtain ⟨hlo, hhi, hss, hst, hrest⟩ := h
+      rcases hx with hx | hx
+      · have := ihc _ _ hst x hx
+        have hs' : ltHi hi s' := by
+          cases r' with
+          | nil => exact (kidsST_single.mp hrest).2.1
+          | cons q'' r'' => obtain ⟨s'', c''⟩ := q''; exact (kidsST_cons2.mp hrest).2.1
+        have h3 : Bytes.lt x.key s' = true := by simpa [ltHi] using this.2
+        refine ⟨?_, ltHi_trans hs' h3⟩
+        cases b with
+        | true => simpa using this.1
+        | false =>
+          have h1 : geLo lo s := by simpa using hlo
+          have h2 : Bytes.lt x.key s = false := by simpa [geLo] using this.1
+          exact geLo_trans h1 h2
+      · exact ihr false lo hi hrest x hx
+
+/-- relation between an earlier child `p` and a later child `q` of a branch -/
+def KidRel (p q : Bytes × Tree) : Prop :=
+  Bytes.lt p.1 q.1 = true ∧ (∀ x ∈ flatten p.2, Bytes.lt x.key q.1 = true) ∧
+    (∀ y ∈ flatten q.2, Bytes.lt y.key q.1 = false)
+
+theorem kidsST_nonfirst_ge : ∀ (kids : List (Bytes × Tree)) (lo hi : Option Bytes), KidsST false lo hi kids →
+    ∀ q ∈ kids, ∀ y ∈ flatten q.2, Bytes.lt y.key q.1 = false
+  | [], _, _, _, q, hq => by cases hq
+  | (s, c) :: r, lo, hi, h, q, hq => by
+    rcases List.mem_cons.mp hq with rfl | hq
+    · intro y hy
+      cases r with
+      | nil =>
+        rw [kidsST_single] at h
+        have := (ST_bounds c _ _ h.2.2 y hy).1
+        simpa [geLo] using this
+      | cons q' r' =>
+        obtain ⟨s', c'⟩ := q'
+        rw [kidsST_cons2] at h
+        have := (ST_bounds c _ _ h.2.2.2.1 y hy).1
+        simpa [geLo] using this
+    · cases r with
+      | nil => cases hq
+      | cons q' r' =>
+        obtain ⟨s', c'⟩ := q'
+        rw [kidsST_cons2] at h
+        exact kidsST_nonfirst_ge _ lo hi h.2.2.2.2 q hq
+
+theorem kidsST_pairwise : ∀ (kids : List (Bytes × Tree)) (b : Bool) (lo hi : Option Bytes), KidsST b lo hi kids →
+    List.Pairwise KidRel kids
+  | [], _, _, _, _ => List.Pairwise.nil
+  | [(s, c)], _, _, _, _ => List.pairwise_singleton _ _
+  | (s, c) :: (s', c') :: r', b, lo, hi, h => by
+    rw [kidsST_cons2] at h
+    obtain ⟨_, _, hss, hst, hrest⟩ := h
+    have ih := kidsST_pairwise ((s', c') :: r') false lo hi hrest
+    have hge := kidsST_nonfirst_ge ((s', c') :: r') lo hi hrest
+    have hlt : ∀ x ∈ flatten c, Bytes.lt x.key s' = true := fun x hx => by
+      have := (ST_bounds c _ _ hst x hx).2
+      simpa [ltHi] using this
+    refine List.Pairwise.cons ?_ ih
+    intro q hq
+    rcases List.mem_cons.mp hq with rfl | hq'
+    · exact ⟨hss, hlt, hge _ (List.mem_cons_self)⟩
+    · have hr := (List.pairwise_cons.mp ih).1 q hq'
+      exact ⟨blt_trans hss hr.1, fun x hx => blt_trans (hlt x hx) hr.1, hge q hq⟩
+
+theorem kidsST_sub : ∀ (kids : List (Bytes × Tree)) (b : Bool) (lo hi : Option Bytes), KidsST b lo hi kids →
+    ∀ p ∈ kids, ∃ lo' hi', ST lo' hi' p.2
+  | [], _, _, _, _, p, hp => by cases hp
+  | [(s, c)], b, lo, hi, h, p, hp => by
+    rw [kidsST_single] at h
+    rcases List.mem_cons.mp hp with rfl | hp
+    · exact ⟨_, _, h.2.2⟩
+    · cases hp
+  | (s, c) :: (s', c') :: r', b, lo, hi, h, p, hp => by
+    rw [kidsST_cons2] at h
+    obtain ⟨_, _, hss, hst, hrest⟩ := h
+    rcases List.mem_cons.mp hp with rfl | hp
+    · exact ⟨_, _, hst⟩
+    · exact kidsST_sub ((s', c') :: r') false lo hi hrest p hp
+
+/-! ### `lowerBound` on a sorted key list -/
+
+theorem lowerBound_cons (a : Bytes) (r : List Bytes) (k : Bytes) :
+    lowerBound (a :: r) k = if Bytes.lt a k = true then lowerBound r k + 1 else 0 := by
+  simp only [lowerBound, List.takeWhile_cons]
+  split <;> simp
+
+theorem lowerBound_le : ∀ (keys : List Bytes) (k : Bytes), lowerBound keys k ≤ keys.length
+  | [], _ => Nat.le_refl _
+  | a :: r, k => by
+    rw [lowerBound_cons]
+    have := lowerBound_le r k
+    split <;> simp <;> omega
+
+theorem lowerBound_take : ∀ (keys : List Bytes) (k : Bytes), ∀ x ∈ keys.take (lowerBound keys k), Bytes.lt x k = true
+  | [], _, x, hx => by simp at hx
+  | a :: r, k, x, hx => by
+    rw [lowerBound_cons] at hx
+    split at hx
+    · rename_i h
+      simp only [List.take_succ_cons, List.mem_cons] at hx
+      rcases hx with rfl | hx
+      · exact h
+      · exact lowerBound_take r k x hx
+    · simp at hx
+
+theorem lowerBound_drop : ∀ (keys : List Bytes) (k : Bytes), List.Pairwise (fun a b => Bytes.lt a b = true) keys →
+    ∀ x ∈ keys.drop (lowerBound keys k), Bytes.lt x k = false
+  | [], _, _, x, hx => by simp at hx
+  | a :: r, k, hp, x, hx => by
+    rw [lowerBound_cons] at hx
+    split at hx
+    · simp only [List.drop_succ_cons] at hx
+      exact lowerBound_drop r k (List.pairwise_cons.mp hp).2 x hx
+    · rename_i h
+      have h : Bytes.lt a k = false := by simpa using h
+      simp only [List.drop_zero, List.mem_cons] at hx
+      rcases hx with rfl | hx
+      · exact h
+      · have hax := (List.pairwise_cons.mp hp).1 x hx
+        cases hxk : Bytes.lt x k with
+        | false => rfl
+        | true => rw [blt_trans hax hxk] at h; cases h
+
+
+/-! ### `search` lands on the lower bound -/
+
+def LtK (k : Bytes) (L : List Item) : Prop := ∀ x ∈ L, Bytes.lt x.key k = true
+def GeK (k : Bytes) (L : List Item) : Prop := ∀ x ∈ L, Bytes.lt x.key k = false
+
+theorem LtK_append {k : Bytes} {a b : List Item} : LtK k (a ++ b) ↔ LtK k a ∧ LtK k b := by
+  simp only [LtK, List.mem_append]
+  constructor
+  · intro h; exact ⟨fun x hx => h x (Or.inl hx), fun x hx => h x (Or.inr hx)⟩
+  · rintro ⟨h1, h2⟩ x (hx | hx)
+    · exact h1 x hx
+    · exact h2 x hx
+
+theorem GeK_append {k : Bytes} {a b : List Item} : GeK k (a ++ b) ↔ GeK k a ∧ GeK k b := by
+  simp only [GeK, List.mem_append]
+  constructor
+  · intro h; exact ⟨fun x hx => h x (Or.inl hx), fun x hx => h x (Or.inr hx)⟩
+  · rintro ⟨h1, h2⟩ x (hx | hx)
+    · exact h1 x hx
+    · exact h2 x hx
+
+theorem pairwise_split {α : Type} {R : α → α → Prop} {l : List α} (h : List.Pairwise R l) (j : Nat) (hj : j < l.length) :
+    (∀ a ∈ l.take j, R a l[j]) ∧ (∀ b ∈ l.drop (j + 1), R l[j] b) := by
+  have hs : l = l.take j ++ l[j] :: l.drop (j + 1) := by
+    rw [List.getElem_cons_drop, List.take_append_drop]
+  rw [hs] at h
+  obtain ⟨_, h2, h3⟩ := List.pairwise_append.mp h
+  exact ⟨fun a ha => h3 a ha _ List.mem_cons_self, (List.pairwise_cons.mp h2).1⟩
+
+/-- the child picked by `searchNode/searchPage`: everything left of it is `< k`, everything
+    right of it is `≥ k` -/
+theorem branch_pick {kids : List (Bytes × Tree)} {k : Bytes} (hne : kids ≠ []) (hp : List.Pairwise KidRel kids)
+    (idx : Nat)
+    (hidx : (idx = lowerBound (kids.map (·.1)) k ∧
+              (lowerBound (kids.map (·.1)) k = 0 ∨ ∃ p, kids[lowerBound (kids.map (·.1)) k]? = some p ∧ p.1 = k)) ∨
+            idx + 1 = lowerBound (kids.map (·.1)) k) :
+    idx < kids.length ∧ LtK k (flattenKids (kids.take idx)) ∧ GeK k (flattenKids (kids.drop (idx + 1))) := by
+  have hlen : 0 < kids.length := List.length_pos_iff.mpr hne
+  have hle := lowerBound_le (kids.map (·.1)) k
+  simp only [List.length_map] at hle
+  have hsorted : List.Pairwise (fun a b => Bytes.lt a b = true) (kids.map (·.1)) := by
+    rw [List.pairwise_map]
+    exact hp.imp (fun h => h.1)
+  have hT : ∀ p ∈ kids.take (lowerBound (kids.map (·.1)) k), Bytes.lt p.1 k = true := fun p hp' => by
+    apply lowerBound_take (kids.map (·.1)) k
+    rw [← List.map_take]
+    exact List.mem_map_of_mem hp'
+  have hD : ∀ p ∈ kids.drop (lowerBound (kids.map (·.1)) k), Bytes.lt p.1 k = false := fun p hp' => by
+    apply lowerBound_drop (kids.map (·.1)) k hsorted
+    rw [← List.map_drop]
+    exact List.mem_map_of_mem hp'
+  generalize lowerBound (kids.map (·.1)) k = i at hidx hle hT hD
+  -- everything right of `idx`, as soon as those children's separators are ≥ k
+  have right : ∀ (j : Nat) (hj : j < kids.length), (∀ q ∈ kids.drop (j + 1), Bytes.lt q.1 k = false) →
+      GeK k (flattenKids (kids.drop (j + 1))) := by
+    intro j hj hq y hy
+    obtain ⟨q, hqm, hyq⟩ := mem_flattenKids.mp hy
+    have hr := (pairwise_split hp j hj).2 q hqm
+    exact ble_trans (hq q hqm) (hr.2.2 y hyq)
+  rcases hidx with ⟨rfl, h0 | ⟨p, hpi, hpk⟩⟩ | hidx
+  · -- idx = i = 0
+    subst h0
+    refine ⟨hlen, ?_, right 0 hlen (fun q hq => hD q (List.mem_of_mem_drop hq))⟩
+    intro x hx; simp [flattenKids] at hx
+  · -- exact match at idx = i
+    obtain ⟨hlt, hpe⟩ := List.getElem?_eq_some_iff.mp hpi
+    refine ⟨hlt, ?_, ?_⟩
+    · intro x hx
+      obtain ⟨q, hqm, hxq⟩ := mem_flattenKids.mp hx
+      have hr := (pairwise_split hp idx hlt).1 q hqm
+      rw [hpe] at hr
+      have := hr.2.1 x hxq
+      rwa [hpk] at this
+    · apply right idx hlt
+      intro q hq
+      apply hD
+      have : kids.drop (idx + 1) = (kids.drop idx).drop 1 := by rw [List.drop_drop]
+      rw [this] at hq
+      exact List.mem_of_mem_drop hq
+  · -- idx = i - 1
+    subst hidx
+    have hlt : idx < kids.length := by omega
+    refine ⟨hlt, ?_, right idx hlt hD⟩
+    intro x hx
+    obtain ⟨q, hqm, hxq⟩ := mem_flattenKids.mp hx
+    have hr := (pairwise_split hp idx hlt).1 q hqm
+    have hk : Bytes.lt kids[idx].1 k = true :=
+      hT _ (List.mem_take_iff_getElem.mpr ⟨idx, by omega, rfl⟩)
+    exact blt_trans (hr.2.1 x hxq) hk
+
+theorem search_branch (k : Bytes) (fuel : Nat) (kids : List (Bytes × Tree)) (st : Stack) :
+    search k (fuel + 1) (.branch kids) st =
+      let i := lowerBound (kids.map (·.1)) k
+      let exact := (kids[i]?).any (fun p => p.1 == k)
+      let idx := if !exact ∧ i > 0 then i - 1 else i
+      match kids[idx]? with
+      | none => { node := .branch kids, index := idx } :: st
+      | some c => search k fuel c.2 ({ node := .branch kids, index := idx } :: st) := by
+  rw [search]; rfl
+
+theorem search_spec {t : Tree} {k : Bytes} : ∀ (fuel : Nat) (n : Tree) (acc : Stack), depth n ≤ fuel →
+    BranchesNonEmpty n → (∃ lo hi, ST lo hi n) → Anc t n acc → LtK k (before acc) → GeK k (after acc) →
+    VS t (search k fuel n acc) ∧ LeafAt (search k fuel n acc) ∧
+      LtK k (before (search k fuel n acc)) ∧ GeK k (frm (search k fuel n acc))
+  | 0, n, _, hd, _, _, _, _, _ => by have := depth_pos n; omega
+  | fuel+1, .leaf items, acc, hd, hb, ⟨lo, hi, hst⟩, hanc, hbef, haft => by
+    rw [search]
+    simp only [ST] at hst
+    have hle := lowerBound_le (items.map (·.key)) k
+    simp only [List.length_map] at hle
+    have hsorted : List.Pairwise (fun a b => Bytes.lt a b = true) (items.map (·.key)) := by
+      rw [List.pairwise_map]; exact hst.1
+    refine ⟨⟨?_, ?_, hanc⟩, ⟨rfl, ?_, ?_⟩, ?_, ?_⟩
+    · show (-1 : Int) ≤ ((lowerBound (items.map (·.key)) k : Nat) : Int); omega
+    · show ((lowerBound (items.map (·.key)) k : Nat) : Int) ≤ (items.length : Int); omega
+    · show (0 : Int) ≤ ((lowerBound (items.map (·.key)) k : Nat) : Int); omega
+    · show ((lowerBound (items.map (·.key)) k : Nat) : Int) ≤ (items.length : Int); omega
+    · simp only [before, leftOf, Int.toNat_natCast]
+      rw [LtK_append]
+      refine ⟨hbef, fun x hx => ?_⟩
+      apply lowerBound_take (items.map (·.key)) k
+      rw [← List.map_take]
+      exact List.mem_map_of_mem hx
+    · simp only [frm, fromTop, Int.toNat_natCast]
+      rw [GeK_append]
+      refine ⟨fun x hx => ?_, haft⟩
+      apply lowerBound_drop (items.map (·.key)) k hsorted
+      rw [← List.map_drop]
+      exact List.mem_map_of_mem hx
+  | fuel+1, .branch kids, acc, hd, hb, ⟨lo, hi, hst⟩, hanc, hbef, haft => by
+    rw [search_branch]
+    simp only [ST] at hst
+    simp only [BranchesNonEmpty] at hb
+    have hpw := kidsST_pairwise kids true lo hi hst
+    have hpick := branch_pick (k := k) hb.1 hpw
+      (if (!(kids[lowerBound (kids.map (·.1)) k]?).any (fun p => p.1 == k)) = true ∧ lowerBound (kids.map (·.1)) k > 0
+        then lowerBound (kids.map (·.1)) k - 1 else lowerBound (kids.map (·.1)) k)
+      (by
+        split
+        · rename_i h; right; omega
+        · rename_i h
+          left
+          refine ⟨rfl, ?_⟩
+          by_cases h0 : lowerBound (kids.map (·.1)) k = 0
+          · exact Or.inl h0
+          · right
+            have hex : (kids[lowerBound (kids.map (·.1)) k]?).any (fun p => p.1 == k) = true := by
+              cases hx : (kids[lowerBound (kids.map (·.1)) k]?).any (fun p => p.1 == k) with
+              | true => rfl
+              | false => exact absurd ⟨by simp [hx], by omega⟩ h
+            obtain ⟨p, hp1, hp2⟩ := (Option.any_eq_true _ _).mp hex
+            exact ⟨p, hp1, by simpa using hp2⟩)
+    simp only []
+    generalize (if (!(kids[lowerBound (kids.map (·.1)) k]?).any (fun p => p.1 == k)) = true ∧ lowerBound (kids.map (·.1)) k > 0
+        then lowerBound (kids.map (·.1)) k - 1 else lowerBound (kids.map (·.1)) k) = idx at hpick ⊢
+    obtain ⟨hlt, hL, hG⟩ := hpick
+    rw [List.getElem?_eq_getElem hlt]
+    simp only []
+    have hmem : kids[idx] ∈ kids := List.getElem_mem hlt
+    have hchild : (Tree.branch kids).child (idx : Int) = some kids[idx].2 := by
+      have := child_of_lt (kids := kids) (i := (idx : Int)) (by omega) (by simpa using hlt)
+      simpa using this
+    apply search_spec fuel kids[idx].2 _
+    · have := depth_le_depthKids hmem
+      simp only [depth] at hd
+      omega
+    · exact bne_of_mem hb.2 hmem
+    · exact kidsST_sub kids true lo hi hst _ hmem
+    · exact ⟨by show (0 : Int) ≤ (idx : Int); omega, hchild, hanc⟩
+    · simp only [before, leftOf, Int.toNat_natCast]
+      rw [LtK_append]; exact ⟨hbef, hL⟩
+    · have : ((idx : Int) + 1).toNat = idx + 1 := by omega
+      simp only [after, rightOf, this]
+      rw [GeK_append]; exact ⟨hG, haft⟩
+
+
+theorem leafAt_end {f : Frame} {r : Stack} (hl : LeafAt (f :: r)) (h : f.index ≥ f.node.count) :
+    frm (f :: r) = after (f :: r) := by
+  obtain ⟨node, i⟩ := f
+  cases node with
+  | branch kids => have := hl.1; simp [Tree.isLeaf] at this
+  | leaf items =>
+    have h : i ≥ (items.length : Int) := h
+    simp only [frm, after, fromTop, rightOf]
+    rw [List.drop_eq_nil_iff.mpr (by omega), List.drop_eq_nil_iff.mpr (by omega)]
+
+theorem leafAt_ne_nil {st : Stack} (h : LeafAt st) : st ≠ [] := by
+  intro h'; rw [h'] at h; exact h
+
+theorem leafIn_ne_nil {st : Stack} (h : LeafIn st) : st ≠ [] := leafAt_ne_nil h.leafAt
+
+/-- `Seek`: the stack built by `search` splits `flatten t` at the lower bound of `k`, and the
+    cursor is then settled on the head of the right part -/
+theorem seek_res {t : Tree} {d fuel : Nat} (k : Bytes) (hb : BranchesNonEmpty t) (hs : SearchTree t)
+    (hd : depth t ≤ d) (hf : size t ≤ fuel) :
+    ∃ st, LtK k (before st) ∧ GeK k (frm st) ∧ before st ++ frm st = flatten t ∧
+      SettleRes t (frm st) (seek d fuel t k) := by
+  obtain ⟨hv, hl, hL, hG⟩ := search_spec (t := t) (k := k) d t [] hd hb ⟨none, none, hs⟩ rfl
+    (fun x hx => by simp [before] at hx) (fun x hx => by simp [after] at hx)
+  refine ⟨search k d t [], hL, hG, VS_flatten_frm hv (leafAt_ne_nil hl), ?_⟩
+  simp only [seek]
+  generalize search k d t [] = st at hv hl hL hG
+  cases st with
+  | nil => exact absurd hl (by simp [LeafAt])
+  | cons f r =>
+    simp only []
+    split
+    · rename_i hge
+      have heq := leafAt_end hl hge
+      rcases next_spec hb hd fuel (f :: r) hv (by have := VS_sizeAfter_lt hv; omega) with ⟨_, ha, hn⟩ | hres
+      · rw [hn]
+        exact SettleRes.none _ hv (by rw [heq, ha]) (by rw [heq, ha]) ha hl
+      · rw [heq]; exact hres
+    · rename_i hge
+      have hin : LeafIn (f :: r) := ⟨hl.1, hl.2.1, by omega⟩
+      obtain ⟨x, hk, hfx, _⟩ := leafIn_elem hin
+      rw [hk]
+      exact SettleRes.found _ x _ hv hfx rfl hin
+
+theorem SettleRes.head {t : Tree} {L : List Item} {r : Stack × Option Item} (h : SettleRes t L r) :
+    r.2 = L.head? := by
+  cases h with
+  | found _ _ _ _ hL _ _ => rw [hL]; rfl
+  | none _ _ hL _ _ _ => rw [hL]; rfl
+
+theorem find_lowerBound {k : Bytes} {A B : List Item} (hA : LtK k A) (hB : GeK k B) :
+    (A ++ B).find? (fun it => !Bytes.lt it.key k) = B.head? := by
+  rw [List.find?_append]
+  have : A.find? (fun it => !Bytes.lt it.key k) = none := by
+    rw [List.find?_eq_none]
+    intro x hx
+    simp [hA x hx]
+  rw [this, Option.none_or]
+  cases B with
+  | nil => rfl
+  | cons b B' =>
+    have := hB b List.mem_cons_self
+    simp [this]
+
+theorem seek_find {t : Tree} {d fuel : Nat} (k : Bytes) (hb : BranchesNonEmpty t) (hs : SearchTree t)
+    (hd : depth t ≤ d) (hf : size t ≤ fuel) :
+    (seek d fuel t k).2 = (flatten t).find? (fun it => !Bytes.lt it.key k) := by
+  obtain ⟨st, hL, hG, hfl, hres⟩ := seek_res k hb hs hd hf
+  rw [hres.head, ← hfl, find_lowerBound hL hG]
+
+/-! ### refinement of the sorted-list-with-position specification -/
+
+/-- stack `st` denotes position `pos` of `flatten t` (`length` = past the end) -/
+def Rep (t : Tree) (st : Stack) : Option Nat → Prop
+  | none => st = []
+  | some i => VS t st ∧ LeafAt st ∧ (before st).length = i ∧ (frm st ≠ [] → LeafIn st)
+
+/-- the abstraction relation between a cursor stack and the specification state -/
+def RepC (t : Tree) (st : Stack) (c : CurSpec) : Prop :=
+  c.keys = (flatten t).map Item.view ∧ Rep t st c.pos
+
+theorem rep_of_settle {t : Tree} {L A : List Item} {r : Stack × Option Item} (h : SettleRes t L r)
+    (hA : A ++ L = flatten t) : Rep t r.1 (some A.length) ∧ r.2 = (flatten t)[A.length]? := by
+  cases h with
+  | found st' x xs hv hL hf hin =>
+    have hfl := VS_flatten_frm hv (leafIn_ne_nil hin)
+    rw [hf, ← hA] at hfl
+    have hb : before st' = A := List.append_cancel_right hfl
+    refine ⟨⟨hv, hin.leafAt, by rw [hb], fun _ => hin⟩, ?_⟩
+    rw [← hA, hL]
+    simp
+  | none st' hv hL hf ha hl =>
+    have hfl := VS_flatten_frm hv (leafAt_ne_nil hl)
+    rw [hf, ← hA, hL] at hfl
+    have hb : before st' = A := by simpa using hfl
+    refine ⟨⟨hv, hl, by rw [hb], fun h => absurd hf h⟩, ?_⟩
+    rw [← hA, hL]
+    simp
+
+theorem flattenKids_eq_nil {l : List (Bytes × Tree)} (h : flattenKids l = [])
+    (hne : ∀ p ∈ l, flatten p.2 ≠ []) : l = [] := by
+  cases l with
+  | nil => rfl
+  | cons p r =>
+    obtain ⟨s, c⟩ := p
+    simp only [flattenKids, List.append_eq_nil_iff] at h
+    exact absurd h.1 (hne (s, c) List.mem_cons_self)
+
+theorem rightOf_eq_nil {f : Frame} (hb : BranchesNonEmpty f.node) (hn : NoEmptyLeafBelowRoot f.node)
+    (hi : -1 ≤ f.index) (h : rightOf f = []) : ¬ f.index < (f.node.count : Int) - 1 := by
+  obtain ⟨node, i⟩ := f
+  cases node with
+  | leaf items =>
+    simp only [rightOf] at h
+    have := List.drop_eq_nil_iff.mp h
+    show ¬ i < (items.length : Int) - 1
+    have hi : -1 ≤ i := hi
+    omega
+  | branch kids =>
+    simp only [rightOf] at h
+    simp only [BranchesNonEmpty] at hb
+    simp only [NoEmptyLeafBelowRoot] at hn
+    have hnil := flattenKids_eq_nil h (fun p hp =>
+      flatten_ne_nil p.2 (bne_of_mem hb.2 (List.mem_of_mem_drop hp)) (nel_of_mem hn (List.mem_of_mem_drop hp)))
+    have := List.drop_eq_nil_iff.mp hnil
+    show ¬ i < (kids.length : Int) - 1
+    have hi : -1 ≤ i := hi
+    omega
+
+theorem VS_all {t : Tree} (hb : BranchesNonEmpty t) (hn : NoEmptyLeafBelowRoot t) : ∀ {st : Stack}, VS t st →
+    ∀ f ∈ st, BranchesNonEmpty f.node ∧ NoEmptyLeafBelowRoot f.node ∧ -1 ≤ f.index
+  | [], _, f, hf => by cases hf
+  | g :: rest, hv, f, hf => by
+    rcases List.mem_cons.mp hf with rfl | hf
+    · exact ⟨Anc_bne hb hv.2.2, Anc_nelbr hn hv.2.2, hv.1⟩
+    · exact VS_all hb hn (VS_tail hv) f hf
+
+theorem advance_none_of_after_nil : ∀ {st : Stack},
+    (∀ f ∈ st, BranchesNonEmpty f.node ∧ NoEmptyLeafBelowRoot f.node ∧ -1 ≤ f.index) → after st = [] →
+    advance st = none
+  | [], _, _ => rfl
+  | f :: rest, hall, h => by
+    simp only [after, List.append_eq_nil_iff] at h
+    obtain ⟨hb, hn, hi⟩ := hall f List.mem_cons_self
+    simp only [advance]
+    rw [if_neg (rightOf_eq_nil hb hn hi h.1)]
+    exact advance_none_of_after_nil (fun g hg => hall g (List.mem_cons_of_mem _ hg)) h.2
+
+theorem next_of_advance_none {d fuel : Nat} {st : Stack} (h : advance st = none) : next d fuel st = (st, none) := by
+  cases fuel with
+  | zero => rfl
+  | succ fuel => rw [next_succ, h]
+
+theorem frm_ne_nil_of_after {st : Stack} (hl : LeafAt st) (h : after st ≠ []) : frm st ≠ [] := by
+  cases st with
+  | nil => exact absurd hl (by simp [LeafAt])
+  | cons f r =>
+    obtain ⟨node, i⟩ := f
+    cases node with
+    | branch kids => have := hl.1; simp [Tree.isLeaf] at this
+    | leaf items =>
+      have h0 : 0 ≤ i := hl.2.1
+      simp only [frm, after, fromTop, rightOf] at h ⊢
+      intro hf
+      simp only [List.append_eq_nil_iff] at hf
+      apply h
+      rw [hf.2, List.append_nil]
+      have := List.drop_eq_nil_iff.mp hf.1
+      exact List.drop_eq_nil_iff.mpr (by omega)
+
+theorem takeWhile_lowerBound {k : Bytes} : ∀ {A B : List Item}, LtK k A → GeK k B →
+    (A ++ B).takeWhile (fun x => Bytes.lt x.key k) = A
+  | [], [], _, _ => rfl
+  | [], b :: B, _, hB => by
+    have := hB b List.mem_cons_self
+    simp [this]
+  | a :: A, B, hA, hB => by
+    have h1 := hA a List.mem_cons_self
+    have ih := takeWhile_lowerBound (A := A) (B := B) (fun x hx => hA x (List.mem_cons_of_mem _ hx)) hB
+    simp only [List.cons_append, List.takeWhile_cons, h1, if_true, ih]
+
+section ops
+variable {t : Tree} {d fuel : Nat} (hb : BranchesNonEmpty t) (hd : depth t ≤ d) (hf : size t ≤ fuel)
+include hb hd hf
+
+theorem first_refines {c : CurSpec} (hk : c.keys = (flatten t).map Item.view) :
+    RepC t (first d fuel t).1 c.first.1 ∧ (first d fuel t).2.map Item.view = c.first.2 := by
+  have := rep_of_settle (A := []) (first_spec (fuel := fuel) hb hd hf) rfl
+  refine ⟨⟨hk, this.1⟩, ?_⟩
+  rw [this.2]
+  simp [CurSpec.first, CurSpec.at, hk]
+
+theorem seek_refines (hs : SearchTree t) {c : CurSpec} (k : Bytes) (hk : c.keys = (flatten t).map Item.view) :
+    RepC t (seek d fuel t k).1 (c.seek k).1 ∧ (seek d fuel t k).2.map Item.view = (c.seek k).2 := by
+  obtain ⟨st, hL, hG, hfl, hres⟩ := seek_res (d := d) (fuel := fuel) k hb hs hd hf
+  have := rep_of_settle hres hfl
+  have hi : (c.keys.takeWhile (fun p => Bytes.lt p.1 k)).length = (before st).length := by
+    rw [hk, ← hfl, List.takeWhile_map]
+    have : ((fun p : Bytes × Option Bytes => Bytes.lt p.1 k) ∘ Item.view) = (fun x : Item => Bytes.lt x.key k) := rfl
+    rw [this, takeWhile_lowerBound hL hG, List.length_map]
+  refine ⟨⟨hk, ?_⟩, ?_⟩
+  · simp only [CurSpec.seek, hi]; exact this.1
+  · rw [this.2]
+    simp only [CurSpec.seek, CurSpec.at, hi]
+    rw [hk, List.getElem?_map]
+
+theorem prev_refines {c : CurSpec} {st : Stack} (h : RepC t st c) :
+    RepC t (prev d fuel t st).1 c.prev.1 ∧ (prev d fuel t st).2.map Item.view = c.prev.2 := by
+  obtain ⟨hk, hrep⟩ := h
+  cases hp : c.pos with
+  | none =>
+    rw [hp] at hrep
+    have hst : st = [] := hrep
+    subst hst
+    have h1 : prev d fuel t [] = ([], none) := by
+      cases fuel <;> simp [prev, stepBack, retreat]
+    rw [h1]
+    simp only [CurSpec.prev, hp]
+    exact ⟨⟨hk, by rw [hp]; rfl⟩, rfl⟩
+  | some i =>
+    rw [hp] at hrep
+    obtain ⟨hv, hl, hlen, hin⟩ := hrep
+    have hres := prev_spec hb hd fuel st hv (leafAt_ne_nil hl) hf
+    have hfl := VS_flatten_frm hv (leafAt_ne_nil hl)
+    generalize prev d fuel t st = r at hres
+    obtain ⟨st', kv⟩ := r
+    cases kv with
+    | none =>
+      obtain ⟨hL, rfl⟩ := hres.none_eq
+      have hi0 : i = 0 := by rw [← hlen, hL]; rfl
+      have hfst := (rep_of_settle (A := []) (first_spec (fuel := fuel) hb hd hf) rfl).1
+      simp only [CurSpec.prev, hp, hi0, Nat.lt_irrefl, if_false]
+      exact ⟨⟨hk, hfst⟩, rfl⟩
+    | some x =>
+      obtain ⟨hv', hin', hu, hL⟩ := hres.found_eq
+      have hipos : 0 < i := by rw [← hlen, hL]; simp
+      have hbl : (before st').length = i - 1 := by rw [← hlen, hL]; simp
+      simp only [CurSpec.prev, hp, hipos, if_true]
+      refine ⟨⟨hk, hv', hin'.leafAt, hbl, fun _ => hin'⟩, ?_⟩
+      simp only [CurSpec.at, hk, List.getElem?_map, Option.map_some]
+      rw [← hfl, hL, ← hbl]
+      simp
+
+theorem last_refines {c : CurSpec} (hk : c.keys = (flatten t).map Item.view) :
+    RepC t (last d fuel t).1 c.last.1 ∧ (last d fuel t).2.map Item.view = c.last.2 := by
+  have hres := last_spec (fuel := fuel) hb hd hf
+  generalize last d fuel t = r at hres
+  obtain ⟨st', kv⟩ := r
+  cases kv with
+  | none =>
+    obtain ⟨hL, rfl⟩ := hres.none_eq
+    have hfst := (rep_of_settle (A := []) (first_spec (fuel := fuel) hb hd hf) rfl).1
+    have hke : c.keys.isEmpty = true := by rw [hk, hL]; rfl
+    simp only [CurSpec.last, hke, if_true]
+    exact ⟨⟨hk, hfst⟩, rfl⟩
+  | some x =>
+    obtain ⟨hv', hin', hu, hL⟩ := hres.found_eq
+    have hke : c.keys.isEmpty = false := by rw [hk, hL]; simp
+    have hlen : c.keys.length - 1 = (before st').length := by rw [hk, hL]; simp
+    simp only [CurSpec.last, hke, Bool.false_eq_true, if_false, hlen]
+    refine ⟨⟨hk, hv', hin'.leafAt, rfl, fun _ => hin'⟩, ?_⟩
+    simp only [CurSpec.at, hk, List.getElem?_map, Option.map_some]
+    rw [hL]
+    simp
+
+theorem next_refines (hn : NoEmptyLeafBelowRoot t) {c : CurSpec} {st : Stack} (h : RepC t st c) :
+    RepC t (next d fuel st).1 c.next.1 ∧ (next d fuel st).2.map Item.view = c.next.2 := by
+  obtain ⟨hk, hrep⟩ := h
+  cases hp : c.pos with
+  | none =>
+    rw [hp] at hrep
+    have hst : st = [] := hrep
+    subst hst
+    rw [next_of_advance_none (by rfl)]
+    simp only [CurSpec.next, hp]
+    exact ⟨⟨hk, by rw [hp]; rfl⟩, rfl⟩
+  | some i =>
+    rw [hp] at hrep
+    obtain ⟨hv, hl, hlen, hin⟩ := hrep
+    have hfl := VS_flatten_frm hv (leafAt_ne_nil hl)
+    have hfu := VS_flatten_upto hv (leafAt_ne_nil hl)
+    have hklen : c.keys.length = (flatten t).length := by rw [hk, List.length_map]
+    cases ha : after st with
+    | nil =>
+      have hadv := advance_none_of_after_nil (VS_all hb hn hv) ha
+      rw [next_of_advance_none hadv]
+      have hle : ¬ i + 1 < c.keys.length := by
+        rw [hklen, ← hfl, List.length_append, hlen]
+        by_cases hfe : frm st = []
+        · rw [hfe]; simp
+        · obtain ⟨x, _, hx, _⟩ := leafIn_elem (hin hfe)
+          rw [hx, ha]; simp
+      simp only [CurSpec.next, hp, hle, if_false]
+      exact ⟨⟨hk, by rw [hp]; exact ⟨hv, hl, hlen, hin⟩⟩, rfl⟩
+    | cons y ys =>
+      have hfne : frm st ≠ [] := frm_ne_nil_of_after hl (by rw [ha]; simp)
+      obtain ⟨x, _, _, hux⟩ := leafIn_elem (hin hfne)
+      have hul : (upto st).length = i + 1 := by rw [hux]; simp [hlen]
+      rcases next_spec hb hd fuel st hv (by have := VS_sizeAfter_lt hv; omega) with ⟨_, ha', _⟩ | hres
+      · rw [ha] at ha'; cases ha'
+      · have := rep_of_settle hres hfu
+        rw [hul] at this
+        have hlt : i + 1 < c.keys.length := by
+          rw [hklen, ← hfu, List.length_append, hul, ha]; simp
+        simp only [CurSpec.next, hp, hlt, if_true]
+        refine ⟨⟨hk, this.1⟩, ?_⟩
+        rw [this.2]
+        simp only [CurSpec.at, hk, List.getElem?_map]
+
+end ops
+
 end Bolt.Cur
